@@ -50,11 +50,11 @@ SLICES = {
         "stages": V(reps=("none",), aggs=(False,), spell=("abs",), faults=["drop", "rename", "restage", "cycle", "dup"], package=16),
     },
     "thorough": {
-        "two": V(names=("p", "q"), reps=("none", "n1", "n2", "n3", "vg", "vs", "vc"), comps=2, package=2,
-                 paths=("", "out.txt"), methods=("ref", "copy")),
-        "three": V(reps=("none", "n2", "vs"), faults=["none", "drop", "rename", "restage", "cycle", "dup", "var"], package=16),
-        "options": V(reps=("none", "vg", "vc"), spell=("rel", "abs"), refs=1, faults=["key", "type"], package=16),
-        "four": V(names=("p", "q", "r", "s"), stages=(0,), reps=("none", "n2"), spell=("rel",), comps=4,
+        "two": V(names=("p", "q"), reps=("none", "n1", "n2", "n3", "vg", "vs", "vc"), comps=2, package=4, paths=("", "out.txt")),
+        "three": V(stages=(0,), reps=("none", "n2"), spell=("rel",), faults=["none", "drop", "rename", "cycle", "dup", "var"], package=16),
+        "three2": V(reps=("none", "n2"), spell=("abs",), faults=["none", "drop", "rename", "restage", "cycle", "dup", "var"], package=32),
+        "options": V(stages=(0,), reps=("none", "vg"), spell=("rel",), refs=1, faults=["key", "type"], package=16),
+        "four": V(names=("p", "q", "r", "s"), stages=(0,), reps=("none", "n2"), aggs=(False,), spell=("rel",), comps=4,
                   faults=["drop", "cycle", "dup", "rename"], package=32),
     },
 }
